@@ -88,6 +88,38 @@ def sidelobe_case(P, L, b0, ph, off, win="name"):
     return what, sup, sup_real
 
 
+class ConstLScheduler:
+    """User scheduler: one full-length segment per bin, bins at the given fractional bin numbers (picklable)."""
+    def __init__(self, bins):
+        self.bins = [float(b) for b in bins]; self.__name__ = "const_L"
+
+    def __call__(self, **a):
+        N = int(a["N"]); fs = float(a["fs"]); nb = len(self.bins)
+        f = np.array([b * fs / N for b in self.bins])
+        return dict(f=f, r=np.full(nb, fs / N), b=np.array(self.bins), L=np.full(nb, N, dtype=np.int64), K=np.ones(nb, dtype=np.int64),
+                    navg=np.ones(nb, dtype=np.int64), O=np.zeros(nb), D=[np.array([0], dtype=np.int64) for _ in range(nb)], nf=nb)
+
+
+def multibin_case(P, L, b0, ph, offs, win="name"):
+    """The same measurement through compute() (the multi-bin path): all analysis bins of one plan in one call."""
+    from speckit.analysis import SpectrumAnalyzer
+    from speckit.utils import kaiser_alpha
+    alpha = float(kaiser_alpha(P)); lobe = math.sqrt(1 + alpha * alpha)
+    bins = [b0] + [b0 + o for o in offs if 0 < b0 + o < L / 2]
+    th = 2 * np.pi * b0 * np.arange(L) / L + ph
+    an = SpectrumAnalyzer(np.vstack([np.cos(th), np.sin(th)]), 1.0, win=_kaiser_spec(win), psll=P, order=-1, olap=0.0, scheduler=ConstLScheduler(bins))
+    d = an.compute()._data
+    XX = np.asarray(d["XX"], float); YY = np.asarray(d["YY"], float); im = np.imag(np.asarray(d["XY"]))
+    p = XX + YY + 2 * im; m = XX + YY - 2 * im
+    line = p if p[0] >= m[0] else m
+    on = float(line[0])
+    for k in range(1, len(bins)):
+        sup = 10 * math.log10(on / max(float(line[k]), 1e-320))
+        if sup < P - 1 - 0.05:
+            return "psll=%g, L=%d, compute() path: response %.2f bins from a spectral line at bin %.3f is only %.2f dB down (requested %g)" % (P, L, abs(bins[k] - b0), b0, sup, P), sup
+    return None, None
+
+
 def sweep(ck):
     """Response to a pure sinusoid at analysis offsets beyond sqrt(1+alpha^2) bins is at least P-1 dB below the on-frequency response.
     The suppression is measured per spectral line: a real sinusoid has a second line at -b0 whose own (equally suppressed) leakage adds
@@ -97,7 +129,7 @@ def sweep(ck):
     worst = 1e9; worst_real = 1e9
     evals = 0
     for _ in range(n):
-        P = ck.rng.choice([40, 60, 80, 120, 160, 200, ck.rng.uniform(40, 200)])
+        P = ck.rng.choice([40, 60, 80, 120, 160, 200, ck.rng.uniform(40, 200), ck.rng.choice([40.99, 45.5, 49.99, 54.9, 61.7])])
         L = ck.rng.choice([64, 100, 1000, 4096])
         alpha = float(kaiser_alpha(P)); lobe = math.sqrt(1 + alpha * alpha)
         b0 = ck.rng.uniform(lobe + 1, L / 2 - lobe - 1)
@@ -115,6 +147,10 @@ def sweep(ck):
                 worst = min(worst, sup - (P - 1)); worst_real = min(worst_real, sup_real - (P - 1))
                 if what:
                     ck.violation(what, dict(psll=P, L=L, bin=b0, offset=sgn * off, phase=ph, win=wsel), tag="sidelobe")
+        # the multi-bin path: the same tone, all offsets in one compute() call
+        what, _ = multibin_case(P, L, b0, ph, [sg * o for o in offs for sg in (-1, 1)], ck.rng.choice(["name", "numpy"])); evals += 1
+        if what:
+            ck.violation(what, dict(psll=P, L=L, bin=b0, phase=ph, path="compute"), tag="sidelobe-multibin")
     ck.cov["sidelobe_evaluations"] = evals
     ck.cov["worst_margin_dB_over_P_minus_1"] = worst
     ck.cov["worst_margin_dB_real_sinusoid_both_lines"] = worst_real
